@@ -575,7 +575,7 @@ def run(ctx):
                 continue
             check_unknown(ctx, text, tmpdir)
         # ---- configuration
-        n_hist, n_set, n_slow = (50, 60, 60) if ctx.tier == "quick" else (3000, 3000, 3000)
+        n_hist, n_set, n_slow = (140, 140, 140) if ctx.tier == "quick" else (6000, 6000, 6000)
         for _ in range(ctx.share(n_hist)):
             if not ctx.time_left():
                 break
